@@ -254,6 +254,30 @@ def _hc(ctx, rng, par):
     return _soln(SteepestDescentSubsetHillClimber(rng=rng).minimize(prob))
 
 
+# ---- legacy "unconstrained" optimisers (objective-function API) -----------------------------
+def _legacy(which):
+    def f(ctx, rng, par):
+        import importlib
+        cls = getattr(importlib.import_module("pybrops.opt.algo." + which), which)
+        ebv = numpy.asarray(ctx.ebv, dtype=float)
+
+        def objfn(sel, **kw):
+            v = float(ebv[numpy.asarray(sel, dtype=int)].sum())
+            return v if which.endswith("HillClimber") else (v,)
+        kw = {} if which.endswith("HillClimber") else dict(ngen=2, mu=8, lamb=8)
+        if rng is not None:
+            kw["rng"] = rng
+        algo = cls(**kw)
+        res = algo.optimize(objfn, 3, numpy.arange(len(ebv)), numpy.array([1.0]))
+        return [numpy.asarray(res[0], dtype=float).ravel(), numpy.asarray(res[1])]
+    return f
+
+
+reg("legacy.hillclimber")(_legacy("UnconstrainedSteepestAscentSetHillClimber"))
+reg("legacy.setga", heavy=True)(_legacy("UnconstrainedSetGeneticAlgorithm"))
+reg("legacy.nsga2", heavy=True)(_legacy("UnconstrainedNSGA2SetGeneticAlgorithm"))
+
+
 # ---- global-only components -------------------------------------------------------------
 @reg("embv", has_rng=False, heavy=True)
 def _embv(ctx, rng, par):
